@@ -49,6 +49,14 @@ def variants(model):
     out.append(("lim-bound:" + p, [("lim", p, round(lo, 6), round(hi, 6))]))
     if "c" in free:
         out.append(("fix0:c", [("fix", "c", 0.0)]))  # fixing to exactly zero
+    # values assigned with set_all_parameter_values, then one parameter fixed WITHOUT a value: it stays where it was put
+    moved = [round(tr[q] * (1.05 if i % 2 == 0 else 0.96), 6) for i, q in enumerate(w.par_names)]
+    out.append(("setall+fix:" + free[-1], [("setall", moved), ("fix", free[-1])]))
+    # two limited parameters, one limit removed again: the other limit (with the optimum on its bound) must stay in force
+    p_b, p_o = free[-1], free[0]
+    lo_b, hi_b = sorted((0.3 * tr[p_b], 0.93 * tr[p_b]))
+    lo_o, hi_o = sorted((0.5 * tr[p_o], 2.0 * tr[p_o]))
+    out.append(("lim2-unlim:%s+%s" % (p_b, p_o), [("lim", p_b, round(lo_b, 6), round(hi_b, 6)), ("lim", p_o, round(lo_o, 6), round(hi_o, 6)), ("unlim", p_o)]))
     lo, hi = sorted((0.5 * tr[free[0]], 2.0 * tr[free[0]]))
     out.append(("lim-in+fix:%s+%s" % (free[0], free[-1]), [("lim", free[0], round(lo, 6), round(hi, 6)), ("fix", free[-1], round(tr[free[-1]] * 1.02, 6))]))
     return out
